@@ -26,7 +26,13 @@ TInit == l = 1 /\ DFrozen /\ b = BInitState("lb", [de |-> FALSE, dr |-> FALSE, d
 
 T_Reset   == Is("reset") /\ BQuiescent(b)
              /\ b' = BInitState(Ev.kind, [de |-> Ev.de, dr |-> Ev.dr, ds |-> Ev.ds], Ev.nreq)
-T_Add     == Is("add") /\ b' = BAddOp(b, Ev.mb, Ev.iv)
+\* an upstream is added with the ConnConfig a configuration script made
+\* (calls; eff: what its getters said): the burst limit in force is what the
+\* script leaves (`elapsed > burst_interval`)
+T_Add     == /\ Is("add")
+             /\ LET c == CcRun(Ev.calls)
+                IN /\ Ev.eff = c
+                   /\ b' = BAddOp(b, c.mb, TicksOver(c.iv, TickMs))
 T_Submit  == Is("submit") /\ BQuiescent(b) /\ b.reqs[Ev.r].st = "none" /\ b' = BSubmitOp(b, Ev.r)
 T_Asked   == Is("asked") /\ Ev.u \in 1..Len(b.ups) /\ Ev.r \in DOMAIN b.reqs
              /\ BAskedOk(b, Ev.u, Ev.r) /\ b' = BAskedOp(b, Ev.u, Ev.r)
